@@ -118,12 +118,13 @@ package messagequeue
 //@   ensures result2 == nil ==> len(old(mq.builders)) > 0 && result1.msgSize == old(mq.builders[0].Builder.blkSize) && result1.topic == old(mq.builders[0].topic)
 
 //@ -- C15: the callback contract of AllocateAndBuildMessage(size, fn): fn raises the block bytes of the builder it is
-//@ -- given by exactly the `size` that was reserved for it (responseassembler's callback is verified against this)
+//@ -- given by at most the `size` that was reserved for it (responseassembler's callback is verified against this: it adds
+//@ -- exactly size, or nothing when its response stream was closed in the meantime)
 //@ func MessageQueue.buildMessage$buildMessageFn
 //@   assumed
 //@   params builder
 //@   modifies builder.Builder.blkSize, alloc
-//@   ensures builder.Builder.blkSize == old(builder.Builder.blkSize) + size
+//@   ensures old(builder.Builder.blkSize) <= builder.Builder.blkSize && builder.Builder.blkSize <= old(builder.Builder.blkSize) + size
 
 //@ func NewBuilder
 //@   lenient
@@ -135,23 +136,25 @@ package messagequeue
 //@   modifies nothing
 //@   ensures len(builders) == 0 ==> result
 
-//@ -- C15/C17: data is added to the LAST builder only (a new one is appended when needed), raising it by exactly size
+//@ -- C15/C17: data is added to the LAST builder only (a new one is appended when needed); of the `size` bytes reserved for
+//@ -- the call, what the callback did not put into that builder is handed back to the allocator at once
 //@ func MessageQueue.buildMessage
 //@   lenient
-//@   requires buildersOK(mq) && buildMessageFn != nil
-//@   modifies mq.builders, mq.nextBuilderTopic, gsmsg.Builder.blkSize, alloc
+//@   requires buildersOK(mq) && buildMessageFn != nil && size >= 0
+//@   modifies mq.builders, mq.nextBuilderTopic, gsmsg.Builder.blkSize, alloc, relBytes, relCalls
 //@   ensures len(mq.builders) > 0 && (mq.builders == old(mq.builders) || (len(mq.builders) == len(old(mq.builders)) + 1 && fresh(mq.builders[len(mq.builders) - 1])))
 //@   ensures forall i int :: 0 <= i && i < len(old(mq.builders)) ==> mq.builders[i] == old(mq.builders)[i]
 //@   ensures let last := mq.builders[len(mq.builders) - 1] ::
-//@           last.Builder.blkSize == ite(fresh(last), 0, old(last.Builder.blkSize)) + size
+//@           (last.Builder.blkSize - ite(fresh(last), 0, old(last.Builder.blkSize))) + (relBytes - old(relBytes)) == size
+//@           && last.Builder.blkSize >= ite(fresh(last), 0, old(last.Builder.blkSize)) && relBytes >= old(relBytes)
 //@   ensures forall i int :: 0 <= i && i < len(mq.builders) - 1 ==> mq.builders[i].Builder.blkSize == old(mq.builders[i].Builder.blkSize)
 
 //@ -- C15/C25: memory is reserved (and the caller may have to wait for this peer's allowance) only for size > 0,
 //@ -- for exactly `size` bytes of this queue's peer
 //@ func MessageQueue.AllocateAndBuildMessage
 //@   lenient
-//@   requires buildersOK(mq) && buildMessageFn != nil
-//@   modifies mq.builders, mq.nextBuilderTopic, gsmsg.Builder.blkSize, alloc
+//@   requires buildersOK(mq) && buildMessageFn != nil && size >= 0
+//@   modifies mq.builders, mq.nextBuilderTopic, gsmsg.Builder.blkSize, alloc, relBytes, relCalls
 //@   callsite Allocator.AllocateBlockMemory: assert size > 0 && $amount == size && $p == mq.p
 
 //@ -- ============================ C16: every extracted message gets exactly one final report ============================
